@@ -37,6 +37,7 @@ type Op struct {
 	H       int64      `json:"h,omitempty"`
 	Timeout int64      `json:"timeout,omitempty"` // read back from the real record
 	To      int        `json:"to,omitempty"`      // inbound bridge call: account of `to`
+	Park    bool       `json:"park,omitempty"`    // SendToFx: observe only; the pending claim is executed later (ExecParked)
 }
 
 func z(n int64) string { return lib.Z(n) }
@@ -54,6 +55,8 @@ func (o Op) Coq() string {
 	switch o.K {
 	case "SendToFx":
 		return f("OSendToFx", zi(o.C), zi(o.T), zi(o.A), z(o.X), zi(o.Tgt))
+	case "ExecParked": // (never recorded as such: perform replaces it by the parked SendToFx)
+		return f("ExecParked", zi(o.C), z(o.ID))
 	case "SendToExternal":
 		return f("OSendToExternal", zi(o.C), zi(o.T), zi(o.A), z(o.X), z(o.Y))
 	case "Cancel":
